@@ -8,7 +8,7 @@ import LowModel.GoSem3
   list starting as `GoSem3.newArray 0 N` (Go zero-initialises package-level variables), `G[i] = v` is
   `GoSem3.setIdx`, `G[i]` is `GoSem.index` on the current list; the struct a constructor allocates is the tuple
   of its fields.  New are only: unsigned division, a map that an initialiser builds, and the one `fmt.Sprintf`
-  verb that package bmtree uses.
+  format that package bmtree uses.
 -/
 namespace Low.GoSem7
 open Low
@@ -31,18 +31,20 @@ def mapLookup {β : Type} : List (Int × β) → Int → Option β
   | [], _ => none
   | (k', v') :: r, k => if k' = k then some v' else mapLookup r k
 
-/-- `fmt.Sprintf("%0[1]*[2]b", width, x)` for `width : int`, `x : uint64` — TRUSTED contract of package fmt for
-    this verb: the binary digits of `x`, most significant first, without leading zeros (`"0"` for 0), padded on
-    the left with `'0'` to at least `width` characters (`width ≤ 0`: no padding; a negative `*` width means
-    left-justify with the absolute value, padding with spaces on the right — `none` here: not modelled).
-    The result is the list of the bytes of the string. -/
-def binDigits : Nat → Nat → List Nat
-  | 0, _ => []
-  | fuel+1, x => if x < 2 then [48 + x] else binDigits fuel (x / 2) ++ [48 + x % 2]
-
-def sprintfBinPad (width : Int) (x : Nat) : Option (List Nat) :=
-  if width < 0 then none else
-  let ds := binDigits 64 x
-  some (List.replicate (width.toNat - ds.length) 48 ++ ds)
+/-- `fmt.Sprintf("%0[1]*[2]b", width, x)` for an integer `width` and an unsigned integer `x` — TRUSTED contract of
+    package fmt for this one format (fmt/print.go `doPrintf`, fmt/format.go `fmtInteger`); the result is the list of
+    the bytes of the string:
+    * `0 ≤ width ≤ 10^6`: the binary digits of `x`, most significant first, without leading zeros (`"0"` for 0), padded
+      on the LEFT with `'0'` to at least `width` characters;
+    * `-10^6 ≤ width < 0`: fmt takes the absolute value, sets the `-` flag and drops the `0` flag: the digits padded on
+      the RIGHT with spaces to at least `|width|` characters;
+    * `|width| > 10^6`: fmt writes `%!(BADWIDTH)` and formats `x` without a width.
+    (The explicit argument indexes `[1]`, `[2]` switch off fmt's "extra arguments" complaint.)
+    The differential test of tools/ssa2lean7/selftest.py compares this function with the real `fmt.Sprintf`. -/
+def sprintfBinPad (width : Int) (x : Nat) : List Nat :=
+  let ds := (Nat.toDigits 2 x).map Char.toNat
+  if width < -1000000 ∨ 1000000 < width then "%!(BADWIDTH)".toList.map Char.toNat ++ ds
+  else if width < 0 then ds ++ List.replicate ((-width).toNat - ds.length) 32
+  else List.replicate (width.toNat - ds.length) 48 ++ ds
 
 end Low.GoSem7
